@@ -110,6 +110,9 @@ def replay_file(path):
         log("not a replay file")
         return 2
     meta = json.loads(m.group(1))
+    if meta.get("kind") == "witness":
+        import witness
+        return witness.replay(meta)
     code = "".join(open(path).readlines()[1:])
     scratch = common.new_scratch("replay")
     src = os.path.join(scratch, "src")
